@@ -19,10 +19,10 @@ Definition alpha14 : list N := [97; 47; 91; 93; 40; 41; 44; 61; 64; 49; 124; 58;
 (* a / [ ] ( ) , = *)
 Definition alpha8 : list N := [97; 47; 91; 93; 40; 41; 44; 61]%N.
 
-Lemma sweep_14_4 : forallb site_in_class (words alpha14 4) = true.
-Proof. vm_compute. reflexivity. Qed.
+Lemma sweep_14_3 : forallb site_in_class (words alpha14 3) = true.
+Proof. vm_cast_no_check (eq_refl true). Qed.
 Lemma sweep_8_5 : forallb site_in_class (words alpha8 5) = true.
-Proof. vm_compute. reflexivity. Qed.
+Proof. vm_cast_no_check (eq_refl true). Qed.
 
 Lemma words_complete alpha : forall k w, length w <= k -> Forall (fun c => In c alpha) w -> In w (words alpha k).
 Proof.
@@ -30,15 +30,15 @@ Proof.
   - destruct w; [left; reflexivity|cbn in Hl; inversion Hl].
   - destruct w as [|c w]; [left; reflexivity|]. right. cbn in Hl. inversion Hw; subst.
     apply in_flat_map. exists w. split; [apply IH; [apply le_S_n, Hl|assumption]|].
-    apply in_map. assumption.
+    apply in_map_iff. exists c. split; [reflexivity|assumption].
 Qed.
 
 Lemma sites_in_classes_bounded s :
-  (length s <= 4 /\ Forall (fun c => In c alpha14) s) \/ (length s <= 5 /\ Forall (fun c => In c alpha8) s) ->
+  (length s <= 3 /\ Forall (fun c => In c alpha14) s) \/ (length s <= 5 /\ Forall (fun c => In c alpha8) s) ->
   site_in_class s = true.
 Proof.
   intros [[Hl Hw]|[Hl Hw]].
-  - pose proof sweep_14_4 as H. rewrite forallb_forall in H. apply H, words_complete; assumption.
+  - pose proof sweep_14_3 as H. rewrite forallb_forall in H. apply H, words_complete; assumption.
   - pose proof sweep_8_5 as H. rewrite forallb_forall in H. apply H, words_complete; assumption.
 Qed.
 
